@@ -205,8 +205,15 @@ class CallGraph:
                 if isinstance(tgt, FuncInfo):
                     self.add(fi, tgt)
                 elif isinstance(tgt, ClassInfo) and isinstance(par, ast.Call) and n in par.args:
-                    for m in self.ctor_edges(fi, tgt):
-                        self.add(fi, m)
+                    # a class handed to a call may be instantiated there: attribute the construction to
+                    # the resolved callees (to the caller only when the callee is unknown)
+                    site = [s_ for s_ in self.sites if s_.node is par]
+                    holders = [c for c in (site[0].callees if site else []) if isinstance(c, FuncInfo)] or [fi]
+                    pos = par.args.index(n)
+                    holders = [h for h in holders if h is fi or self._param_may_be_called(h, pos)]
+                    for h in holders:
+                        for m in self.ctor_edges(h, tgt):
+                            self.add(h, m)
         # property reads on self
         if recv is not None:
             for n in walk_function(fi.node):
@@ -297,6 +304,27 @@ class CallGraph:
                          or any(c.cls in r.mro() for r in self.registered)]
             return cands, 'by-name'
         return self.dynamic_ctor(fi), 'dynamic-expr'
+
+    def _param_may_be_called(self, callee, pos):
+        """Can the callee instantiate/call the value it receives in positional slot `pos`?  Yes if that
+        parameter is called, forwarded to another call, stored, or returned; no if it is only compared,
+        used as a key or tested."""
+        params = callee.params()
+        if callee.cls is not None and callee.kind in ('method', 'classmethod') and callee.parent is None:
+            pos += 1
+        if pos >= len(params):
+            return True
+        name = params[pos]
+        for n in walk_function(callee.node):
+            if isinstance(n, ast.Name) and n.id == name and isinstance(n.ctx, ast.Load):
+                par = getattr(n, '_parent', None)
+                if isinstance(par, ast.Call) and (par.func is n or n in par.args or any(k.value is n for k in par.keywords)):
+                    return True
+                if isinstance(par, (ast.Return, ast.Assign, ast.Yield, ast.Tuple, ast.List, ast.Starred, ast.Attribute)):
+                    if not (isinstance(par, ast.Attribute)):
+                        return True
+                    return True
+        return False
 
     def _is_new_instance(self, fi, name):
         """Is local `name` bound only by object.__new__(cls) / super().__new__(cls) in a __new__ method?"""
